@@ -212,8 +212,11 @@ class Ctx(object):
         ev = dict(property_id=self.pid, tier=self.tier, seed=self.seed, level=level,
                   coverage=cov, assumptions=self.assumptions,
                   wall_s=round(time.time() - self.t0, 2), violations=len(self.violations))
-        os.makedirs(os.path.join(ROOT, 'evidence'), exist_ok=True)
-        with open(os.path.join(ROOT, 'evidence', self.pid + '.json'), 'w') as f:
+        # runs against a scratch copy of the repository (seed sweeps) keep their evidence out of the committed
+        # directory: /verif/evidence always describes a run on /repo itself
+        evdir = os.environ.get('VERIF_EVIDENCE_DIR') or os.path.join(ROOT, 'evidence')
+        os.makedirs(evdir, exist_ok=True)
+        with open(os.path.join(evdir, self.pid + '.json'), 'w') as f:
             json.dump(ev, f, indent=1, sort_keys=True, default=str)
         print('%s tier=%s level=%s obligations=%d discharged=%d undecided=%d bounded_families=%d '
               'violations=%d known=%d wall=%.1fs'
